@@ -157,4 +157,24 @@ PROPS = {
   'assumptions': ['wrong bytes returned as a successful tile read cannot be detected by the server and are not injected'],
   'explanation': 'C10_no_lie / C10_failures_not_cached are instances of the LTS invariant over all fault placements and interleavings; progress and crash-freedom are decided on the real server in child processes.',
  },
+ 'C07': {
+  'rule': 'RelevantEntries on directories with runs, leaf pointers and interval bitmaps (incl. intervals starting/ending exactly on entry boundaries), reencodeEntries on lists with shared contents, '
+          'MergeRanges on range lists with pairwise distinct gaps (monotone and with backward jumps) x overfetch in {0,0.05,0.1,0.125,0.2,0.33,1,2.5,10}; end to end: clustered sources (runs crossing zoom '
+          'boundaries, shared contents, root-only / one leaf level, gzip/none internals) x zoom ranges x overfetch x 1..4 threads x file/HTTP source, output compared with the model and re-run under four '
+          'other configurations for byte identity. Non-trivial: more than two entries/ranges or end to end; distinct by case line',
+  'trusted_base': [GZIP, 'roaring64 bitmap modelled as a list of half-open intervals', 'Flocq (float32 budget): theorems about budget_f32 depend on the standard-library real-number axioms through Flocq',
+                   'errgroup/mutex work distribution abstracted to "plans executed in any order" (C07_schedule_independent)'],
+  'assumptions': ['sources are clustered and well formed, with at most one leaf level (the Go code panics beyond)'],
+  'explanation': 'see Properties/C07.v',
+  'allowed_axioms': ['sig_not_dec', 'sig_forall_dec', 'functional_extensionality_dep', 'classic'],
+ },
+ 'C19': {
+  'rule': 'MergeRanges plans (any tie-breaking) on range lists with tied and distinct gaps, monotone and with backward jumps, lengths up to 2^24+2^20, overfetch from the fixed set and random, checked by the proved '
+          'plan checker plan_ok and by the transfer oracle; end to end over HTTP: the Range requests the loopback origin received (inside their sections, at most (1+overfetch) x needed, exactly needed at 0, nothing twice). '
+          'Non-trivial: more than two ranges or end to end; distinct by case line',
+  'trusted_base': ['Flocq (float32 budget) as for C07', GZIP, 'the loopback origin logs every Range header it receives'],
+  'assumptions': [],
+  'explanation': 'see Properties/C19.v; two known findings (D15 double request with non-monotone source offsets, D16 float32 budget rounding) are listed in known_findings.json',
+  'allowed_axioms': ['sig_not_dec', 'sig_forall_dec', 'functional_extensionality_dep', 'classic'],
+ },
 }
